@@ -95,6 +95,24 @@ def origin(fb, fn, operand, reach, depth=0, seen=None):
     return tags
 
 
+TRANSPARENT = ("::deref", "::deref_mut", "::as_ref", "::borrow", "Arc<T, A> as std::clone::Clone>::clone")
+
+
+def _producers(fl, b, op, depth=0):
+    """Calls that directly produce the value of an operand; smart-pointer plumbing (deref, as_ref, Arc::clone) is seen through."""
+    out = []
+    for x in fl.atoms(op, through_calls=False):
+        if x[0] != "call":
+            continue
+        if x[1].endswith(TRANSPARENT) and depth < 5:
+            t = b["blocks"][x[2]]["t"]
+            if t["args"]:
+                out += _producers(fl, b, t["args"][0], depth + 1)
+                continue
+        out.append(x)
+    return out
+
+
 def rule_no_effect(chk, fb, prefix="C12"):
     ra = chk.rule(
         prefix + ".a",
@@ -151,10 +169,16 @@ def rule_no_effect(chk, fb, prefix="C12"):
                     private = created and any(x[0] == "call" and x[1] in ACQ_READ for x in at) and any(x[0] == "call" and x[1].endswith("::clone") and x[1] != "<std::sync::Arc<T, A> as std::clone::Clone>::clone" for x in at) and not any(
                         x[0] == "call" and x[1] in ACQ_WRITE for x in at
                     )
+                # must-analysis: the object handed over may not BE the workbook's (on any path): none of the calls that
+                # directly produce the value (copies / references followed, calls not entered) is a workbook accessor
+                direct = _producers(fl, b, a)
+                aliased = [x[1].split("::")[-1] for x in direct if fb.mir.get(x[1], {}).get("self_ty") == WORKBOOK]
+                if aliased:
+                    private = False
                 ok = created and private
                 chk.touch(r)
                 chk.ob(rb, "%s->%s:arg%d" % (r, f.split("::")[-1], i), ok, where="%s:%s" % (b["file"], t["ln"]),
-                       detail="table of type %s: created by this save: %s; touches the workbook's table only through read-lock + clone: %s" % (ty[:60], created, private))
+                       detail="table of type %s: created by this save: %s; touches the workbook's table only through read-lock + clone: %s%s" % (ty[:60], created, private, "; on some path it IS the workbook's own table (%s)" % aliased if aliased else ""))
 
 
 def rule_initial(chk, fb):
